@@ -210,7 +210,11 @@ func (s *v12Sim) setupCandidate(idx int) {
 	node := s.cl.nodes[idx]
 	cd := &v12Cand{idx: idx, node: node, ctl: make(chan string, 1), links: map[int]*v12Link{}, next: "vote", round: 1}
 	own := v12Host(idx)
+	bootHook := node.lg.hook
 	node.lg.hook = func(format string, args []interface{}) {
+		if bootHook != nil {
+			bootHook(format, args)
+		}
 		switch {
 		case strings.HasPrefix(format, "Arbiter member self %s do proposal succed"), strings.HasPrefix(format, "Arbiter member self %s do commit succed"):
 			s.net.events <- v12Event{kind: v12EvSelfOk, cand: idx}
